@@ -324,7 +324,8 @@ Lemma recv_msghdr_spec fuel : forall got k r got' k',
   recv_msghdr fuel got k = (r, got', k') ->
   r <> MhOutOfFuel /\ chunks_ok k' /\ k_eof k' = k_eof k /\ k_hup k' = k_hup k /\
   got' ++ unread k' = got ++ unread k /\
-  (r = MhFull -> length got' = LEN) /\ (r <> MhFull -> length got' < LEN).
+  (r = MhFull -> length got' = LEN) /\ (r <> MhFull -> length got' < LEN) /\
+  (r = MhAgain -> k_chunks k' = [] /\ k_eof k = false) /\ (forall e, r = MhErr e -> k_chunks k' = [] /\ k_eof k = true).
 Proof.
   induction fuel as [|f IH]; intros got k r got' k' Hc Hl Hf H.
   - lia.
@@ -333,14 +334,18 @@ Proof.
     destruct rr as [l| |].
     + destruct Hr as (Hn & Hle & Hcat). destruct l as [|z l]; [congruence|].
       destruct (Nat.eqb (length (got ++ z :: l)) LEN) eqn:Eq.
-      * apply Nat.eqb_eq in Eq. inversion H; subst. repeat split; auto; try congruence.
+      * apply Nat.eqb_eq in Eq. inversion H; subst. repeat split; auto; try congruence; try discriminate.
         rewrite <- app_assoc. rewrite Hcat. reflexivity.
       * apply Nat.eqb_neq in Eq. rewrite app_length in Eq. cbn [length] in *.
         apply IH in H; [| exact C1 | rewrite app_length; cbn [length]; lia | rewrite app_length; cbn [length]; lia].
-        destruct H as (A & B & C & D & E & F & G). repeat split; auto; try congruence.
-        rewrite E. rewrite <- app_assoc. rewrite Hcat. reflexivity.
-    + destruct Hr as (_ & _ & ->). inversion H; subst. repeat split; auto; congruence.
-    + destruct Hr as (_ & _ & ->). inversion H; subst. repeat split; auto; congruence.
+        destruct H as (A & B & C & D & E & F & G & I1 & I2). repeat split; auto; try congruence.
+        -- rewrite E. rewrite <- app_assoc. rewrite Hcat. reflexivity.
+        -- apply I1; assumption.
+        -- destruct (I1 H) as [_ X]. congruence.
+        -- eapply I2; eauto.
+        -- destruct (I2 _ H) as [_ X]. congruence.
+    + destruct Hr as (Hk & He & ->). inversion H; subst. repeat split; auto; try congruence; try discriminate.
+    + destruct Hr as (Hk & He & ->). inversion H; subst. repeat split; auto; try congruence; try discriminate.
 Qed.
 
 (* ---- the invariant of one peer ---- *)
@@ -373,7 +378,7 @@ Proof.
   destruct (negb (pollin k)); [inversion H; subst; auto|].
   destruct (recv_msghdr (S LEN) got k) as [[r got'] k1] eqn:Er.
   apply recv_msghdr_spec in Er; [|exact Hc|exact Hl|lia].
-  destruct Er as (A & B & C & D & E & F & G).
+  destruct Er as (A & B & C & D & E & F & G & _ & _).
   destruct r.
   - specialize (F eq_refl). destruct cred; cbn [negb] in H; [|inversion H; subst; rewrite D; auto].
     destruct (req_id got' =? IPC_MSG_AUTHENTICATE)%Z eqn:Ei; inversion H; subst.
@@ -876,4 +881,374 @@ Example ex_session_result :
 Proof.
   vm_compute. split; [reflexivity|]. split; [reflexivity|].
   repeat (apply Forall_cons; [unfold dead; cbn; auto|]). apply Forall_nil.
+Qed.
+
+(* ================================================================= Part A, functional characterisation:
+   what becomes of a peer depends only on the bytes it sent, not on how the stream was cut into pieces nor on when the
+   server looked: fewer than a request -> still pending with exactly those bytes buffered; a complete request with
+   the AUTHENTICATE id in front -> a connection with the requested buffer size; anything else -> closed. *)
+Local Open Scope nat_scope.
+
+Definition quiet (k : ksock) : Prop := k_eof k = false /\ k_hup k = false.
+
+Definition classify (enf : Z) (b : list Z) : pstat :=
+  if length b <? LEN then PPending b
+  else if (req_id (firstn LEN b) =? IPC_MSG_AUTHENTICATE)%Z then PConn (Z.max (req_max (firstn LEN b)) enf)
+  else PClosed.
+
+Lemma firstn_app_long {A} (l1 l2 : list A) n : n <= length l1 -> firstn n (l1 ++ l2) = firstn n l1.
+Proof. intros H. rewrite firstn_app. replace (n - length l1) with 0 by lia. cbn [firstn]. apply app_nil_r. Qed.
+
+Lemma process_auth_quiet got k o k' :
+  chunks_ok k -> length got < LEN -> quiet k -> process_auth false true got k = (o, k') ->
+  quiet k' /\ chunks_ok k' /\
+  match o with
+  | PaStay got' => got' = got ++ unread k /\ k_chunks k' = [] /\ length got' < LEN
+  | PaHand req => req = firstn LEN (got ++ unread k) /\ LEN <= length (got ++ unread k) /\
+                  req_id req = IPC_MSG_AUTHENTICATE /\ req ++ unread k' = got ++ unread k
+  | PaClose _ => LEN <= length (got ++ unread k) /\ req_id (firstn LEN (got ++ unread k)) <> IPC_MSG_AUTHENTICATE
+  end.
+Proof.
+  intros Hc Hl [He Hh] H. unfold process_auth in H. rewrite Hh in H.
+  unfold pollin in H. destruct (k_chunks k) as [|c rest] eqn:Ek.
+  - rewrite He in H. cbn [negb] in H. inversion H; subst. split; [split; assumption|]. split; [exact Hc|].
+    unfold unread. rewrite Ek. cbn [concat]. rewrite app_nil_r. auto.
+  - cbn [negb] in H. destruct (recv_msghdr (S LEN) got k) as [[r got'] k1] eqn:Er.
+    apply recv_msghdr_spec in Er; [|exact Hc|exact Hl|lia].
+    destruct Er as (A & B & C & D & E & F & G & I1 & I2).
+    assert (Hq : quiet k1) by (split; congruence).
+    destruct r.
+    + specialize (F eq_refl). cbn [negb] in H.
+      assert (Hf : firstn LEN (got ++ unread k) = got').
+      { rewrite <- E. rewrite <- F. rewrite firstn_app_long by lia. apply firstn_all. }
+      assert (Hlen : LEN <= length (got ++ unread k)).
+      { rewrite <- E. rewrite app_length. lia. }
+      destruct (req_id got' =? IPC_MSG_AUTHENTICATE)%Z eqn:Ei; inversion H; subst o k'.
+      * apply Z.eqb_eq in Ei. split; [exact Hq|]. split; [exact B|]. repeat split; auto.
+      * apply Z.eqb_neq in Ei. split; [exact Hq|]. split; [exact B|]. rewrite Hf. auto.
+    + inversion H; subst o k'. destruct (I1 eq_refl) as [X _]. split; [exact Hq|]. split; [exact B|].
+      assert (Hu : unread k1 = []) by (unfold unread; rewrite X; reflexivity).
+      rewrite Hu, app_nil_r in E. split; [exact E|]. split; [exact X|]. apply G. discriminate.
+    + destruct (I2 e eq_refl) as [_ X]. congruence.
+    + congruence.
+Qed.
+
+(* a pending peer whose socket is drained and quiet is left alone; a quiet connection stays a connection *)
+Lemma turn_pending_stable t enf p r got :
+  p_stat p = PPending got -> k_chunks (p_sock p) = [] -> quiet (p_sock p) ->
+  peer_turn t enf false true p r = (p, r, (0, 0, 0, 0)%Z).
+Proof.
+  intros Hs Hk [He Hh]. unfold peer_turn. rewrite Hs. unfold process_auth. rewrite Hh. unfold pollin. rewrite Hk, He.
+  cbn [negb]. destruct p as [st k sent]; cbn in *. subst st. reflexivity.
+Qed.
+
+Lemma turns_pending_stable n t enf : forall p r acc got,
+  p_stat p = PPending got -> k_chunks (p_sock p) = [] -> quiet (p_sock p) ->
+  turns n t enf false true p r acc = (p, r, acc).
+Proof.
+  induction n as [|n IH]; intros p r acc got Hs Hk Hq; cbn [turns]; [reflexivity|].
+  rewrite (turn_pending_stable _ _ _ _ _ Hs Hk Hq). rewrite (IH _ _ _ _ Hs Hk Hq).
+  destruct acc as [[[a b] c] d]. unfold add4. repeat rewrite Z.add_0_r. reflexivity.
+Qed.
+
+Lemma turn_conn_quiet t enf p r mx p' r' c :
+  p_stat p = PConn mx -> quiet (p_sock p) -> peer_turn t enf false true p r = (p', r', c) ->
+  p_stat p' = PConn mx /\ quiet (p_sock p') /\ p_sent p' = p_sent p.
+Proof.
+  intros Hs [He Hh] H. unfold peer_turn in H. rewrite Hs in H. rewrite Hh, He in H. cbn [orb andb] in H.
+  destruct t; destruct (k_chunks (p_sock p)); inversion H; subst; cbn; unfold quiet; cbn; auto.
+Qed.
+
+Lemma turns_conn_quiet n t enf : forall p r acc mx p' r' acc',
+  p_stat p = PConn mx -> quiet (p_sock p) -> turns n t enf false true p r acc = (p', r', acc') ->
+  p_stat p' = PConn mx /\ quiet (p_sock p') /\ p_sent p' = p_sent p.
+Proof.
+  induction n as [|n IH]; intros p r acc mx p' r' acc' Hs Hq H; cbn [turns] in H.
+  - inversion H; subst. auto.
+  - destruct (peer_turn t enf false true p r) as [[p1 r1] c1] eqn:Et.
+    destruct (turn_conn_quiet _ _ _ _ _ _ _ _ Hs Hq Et) as (A & B & C).
+    destruct (IH _ _ _ _ _ _ _ A B H) as (A' & B' & C'). split; [exact A'|]. split; [exact B'|]. congruence.
+Qed.
+
+Lemma classify_pending enf b : length b < LEN -> classify enf b = PPending b.
+Proof. intros H. unfold classify. apply Nat.ltb_lt in H. rewrite H. reflexivity. Qed.
+
+Lemma classify_long enf b c : LEN <= length b -> classify enf (b ++ c) = classify enf b.
+Proof.
+  intros H. unfold classify. rewrite app_length.
+  assert (H1 : (length b + length c <? LEN) = false) by (apply Nat.ltb_ge; lia).
+  assert (H2 : (length b <? LEN) = false) by (apply Nat.ltb_ge; lia).
+  rewrite H1, H2. rewrite firstn_app_long by exact H. reflexivity.
+Qed.
+
+(* a peer that has just arrived, or is pending with everything it sent either buffered or still unread, is - after one
+   more look than it takes to accept it - exactly what its byte stream says *)
+Lemma turns_classify_pending n t enf p r acc got p' r' acc' :
+  peer_ok enf p -> quiet (p_sock p) -> p_stat p = PPending got ->
+  turns (S n) t enf false true p r acc = (p', r', acc') ->
+  p_stat p' = classify enf (p_sent p) /\ quiet (p_sock p') /\ p_sent p' = p_sent p /\
+  (forall g, p_stat p' = PPending g -> k_chunks (p_sock p') = []).
+Proof.
+  intros [Hc Hs] Hq Hst H. rewrite Hst in Hs. destruct Hs as [Hl Hcat].
+  cbn [turns] in H. destruct (peer_turn t enf false true p r) as [[p1 r1] c1] eqn:Et.
+  unfold peer_turn in Et. rewrite Hst in Et.
+  destruct (process_auth false true got (p_sock p)) as [o k1] eqn:Ep.
+  apply process_auth_quiet in Ep; [|exact Hc|exact Hl|exact Hq]. destruct Ep as (Q1 & C1 & Ho).
+  destruct o as [got'|e|req]; inversion Et; subst p1 r1 c1; clear Et.
+  - destruct Ho as (Hg & Hk & Hl'). rewrite Hcat in Hg. subst got'.
+    erewrite turns_pending_stable in H; [|reflexivity|exact Hk|exact Q1].
+    inversion H; subst. cbn. rewrite classify_pending by exact Hl'. repeat split; auto; apply Q1.
+  - destruct Ho as (Hlen & Hid). rewrite Hcat in *.
+    rewrite turns_dead in H by (left; reflexivity). inversion H; subst. cbn.
+    split.
+    + unfold classify. assert (X : (length (p_sent p) <? LEN) = false) by (apply Nat.ltb_ge; lia). rewrite X.
+      apply Z.eqb_neq in Hid. rewrite Hid. reflexivity.
+    + repeat split; try apply Q1. intros g Hg. discriminate Hg.
+  - destruct Ho as (Hreq & Hlen & Hid & _). rewrite Hcat in *.
+    eapply turns_conn_quiet in H; [|reflexivity|exact Q1]. destruct H as (A & B & C). cbn in C.
+    split.
+    + rewrite A. unfold classify. assert (X : (length (p_sent p) <? LEN) = false) by (apply Nat.ltb_ge; lia). rewrite X.
+      rewrite <- Hreq. apply Z.eqb_eq in Hid. rewrite Hid. reflexivity.
+    + split; [exact B|]. split; [exact C|]. intros g Hg. congruence.
+Qed.
+
+Lemma turns_S n t enf down cred p r acc :
+  turns (S n) t enf down cred p r acc =
+  let '(p', r', c) := peer_turn t enf down cred p r in turns n t enf down cred p' r' (add4 acc c).
+Proof. reflexivity. Qed.
+
+Lemma turns_classify_arrived n t enf p r acc p' r' acc' :
+  peer_ok enf p -> quiet (p_sock p) -> p_stat p = PArrived ->
+  turns (S (S n)) t enf false true p r acc = (p', r', acc') ->
+  p_stat p' = classify enf (p_sent p) /\ quiet (p_sock p') /\ p_sent p' = p_sent p /\
+  (forall g, p_stat p' = PPending g -> k_chunks (p_sock p') = []).
+Proof.
+  intros Hok Hq Hst H. rewrite turns_S in H.
+  destruct (peer_turn t enf false true p r) as [[p1 r1] c1] eqn:Et.
+  pose proof (peer_turn_spec _ _ _ _ _ _ _ _ _ Hok Et) as (A & B & C & D & _).
+  unfold peer_turn in Et. rewrite Hst in Et. inversion Et; subst p1 r1 c1; clear Et.
+  eapply turns_classify_pending in H; [|exact A|exact Hq|reflexivity]. exact H.
+Qed.
+
+(* one peer, its stream delivered in any pieces c0, c1, c2, ...: the outcome is the classification of the whole stream *)
+Definition one_peer_ok (s : hsvc) (b : list Z) : Prop :=
+  exists p, h_peers s = [p] /\ peer_ok (h_enforced s) p /\ quiet (p_sock p) /\ h_down s = false /\
+            p_stat p = classify (h_enforced s) b /\
+            (p_stat p <> PClosed -> b = p_sent p) /\ (p_stat p = PClosed -> LEN <= length b) /\
+            (forall g, p_stat p = PPending g -> k_chunks (p_sock p) = []).
+
+Lemma classify_not_arrived enf b : classify enf b <> PArrived /\ classify enf b <> PGone.
+Proof. unfold classify. destruct (length b <? LEN); [split; discriminate|]. destruct (_ =? _)%Z; split; discriminate. Qed.
+
+Lemma k_push_quiet k c : quiet k -> quiet (k_push k c).
+Proof. intros H. unfold k_push. destruct c; [exact H|exact H]. Qed.
+
+Lemma classify_closed_len enf b : classify enf b = PClosed -> LEN <= length b.
+Proof.
+  unfold classify. destruct (length b <? LEN) eqn:E; [discriminate|]. intros _. apply Nat.ltb_ge in E. exact E.
+Qed.
+
+Lemma one_peer_app s b c s' x :
+  one_peer_ok s b -> hs_step true s (HApp 0 c) = (s', x) -> one_peer_ok s' (b ++ c).
+Proof.
+  intros (p & Hp & Hok & Hq & Hd & Hst & Hb & Hcl & Hdr) H.
+  assert (Hall : Forall (peer_ok (h_enforced s)) (h_peers s)) by (rewrite Hp; constructor; [exact Hok|constructor]).
+  rewrite hs_step_unfold in H.
+  destruct (prepared s (HApp 0 c)) as [p1|] eqn:Ep;
+    [|cbn [prepared] in Ep; rewrite Hp in Ep; cbn [nth_error] in Ep; discriminate Ep].
+  destruct (prepared_ok _ _ _ Hall Ep) as [Hp1 _].
+  destruct (turns NTURNS (h_tr s) (h_enforced s) (h_down s) true p1 (h_res s) (0, 0, 0, 0)%Z) as [[p' r'] cc] eqn:Et.
+  pose proof (turns_spec _ _ _ _ _ _ _ _ _ _ _ Hp1 Et) as (A & B & _).
+  inversion H; subst s' x; clear H. rewrite Hd in Et.
+  cbn [prepared] in Ep. rewrite Hp in Ep. cbn [nth_error] in Ep. inversion Ep as [Ep1]; clear Ep.
+  unfold one_peer_ok. cbn [h_peers with_peers h_enforced h_down target]. rewrite Hp. cbn [set_nth].
+  exists p'. split; [reflexivity|]. split; [exact A|].
+  destruct (p_stat p) as [|l| |mx|] eqn:Es.
+  - exfalso. destruct (classify_not_arrived (h_enforced s) b) as [X _]. congruence.
+  - assert (Hb' : b = p_sent p) by (apply Hb; discriminate).
+    change NTURNS with (S 199) in Et. rewrite <- Ep1 in Et.
+    eapply turns_classify_pending in Et;
+      [| rewrite Ep1; exact Hp1 | cbn [p_sock]; apply k_push_quiet; exact Hq | reflexivity ].
+    cbn [p_sent] in Et. destruct Et as (E1 & E2 & E3 & E4). rewrite <- Hb' in E1, E3.
+    split; [exact E2|]. split; [exact Hd|]. split; [exact E1|]. split; [intros _; symmetry; exact E3|].
+    split; [intros X; apply (classify_closed_len (h_enforced s)); congruence|exact E4].
+  - rewrite <- Ep1 in Et. rewrite turns_dead in Et by (left; exact Es). inversion Et; subst p' r' cc.
+    specialize (Hcl eq_refl). rewrite classify_long by exact Hcl.
+    split; [exact Hq|]. split; [exact Hd|]. split; [congruence|]. split; [intros X; congruence|].
+    split; [intros _; rewrite app_length; lia|intros g X; congruence].
+  - assert (Hb' : b = p_sent p) by (apply Hb; discriminate).
+    rewrite <- Ep1 in Et.
+    eapply turns_conn_quiet in Et; [| reflexivity | cbn [p_sock]; apply k_push_quiet; exact Hq ].
+    cbn [p_sent] in Et. destruct Et as (E1 & E2 & E3).
+    destruct Hok as [_ Hs]. rewrite Es in Hs. destruct Hs as [[Hlen _] _].
+    rewrite classify_long by (rewrite Hb'; exact Hlen).
+    split; [exact E2|]. split; [exact Hd|]. split; [congruence|]. split; [intros _; rewrite E3, Hb'; reflexivity|].
+    split; [intros X; congruence|intros g X; congruence].
+  - exfalso. destruct (classify_not_arrived (h_enforced s) b) as [_ X]. congruence.
+Qed.
+
+Lemma one_peer_new t c0 s' x :
+  hs_step true (hs_init t) (HNew c0) = (s', x) -> one_peer_ok s' c0.
+Proof.
+  intros H. rewrite hs_step_unfold in H. cbn [prepared] in H.
+  set (p1 := {| p_stat := PArrived; p_sock := k_push k_empty c0; p_sent := c0 |}) in *.
+  assert (Hp1 : peer_ok 0 p1).
+  { unfold peer_ok; cbn. destruct (k_push_ok k_empty c0) as [A B]; [constructor|]. split; [exact A|]. rewrite B. reflexivity. }
+  assert (Hq1 : quiet (p_sock p1)) by (cbn; apply k_push_quiet; split; reflexivity).
+  cbn [hs_init h_tr h_enforced h_down h_res h_peers] in H.
+  destruct (turns NTURNS t 0%Z false true p1 res_idle (0, 0, 0, 0)%Z) as [[p' r'] cc] eqn:Et.
+  pose proof (turns_spec _ _ _ _ _ _ _ _ _ _ _ Hp1 Et) as (A & B & _).
+  inversion H; subst s' x; clear H.
+  change NTURNS with (S (S 198)) in Et.
+  eapply turns_classify_arrived in Et; [|exact Hp1|exact Hq1|reflexivity]. destruct Et as (E1 & E2 & E3 & E4).
+  subst p1. cbn [p_sent p_sock] in *.
+  unfold one_peer_ok. cbn [h_peers with_peers h_enforced h_down app].
+  exists p'. split; [reflexivity|]. split; [exact A|]. split; [exact E2|]. split; [reflexivity|].
+  split; [exact E1|]. split; [intros _; symmetry; exact E3|].
+  split; [intros X; apply (classify_closed_len 0%Z); congruence|exact E4].
+Qed.
+
+Lemma hs_run_enforced cred : forall h s, h_enforced (fst (hs_run cred s h)) = h_enforced s.
+Proof.
+  induction h as [|o h IH]; intros s; cbn [hs_run]; [reflexivity|].
+  destruct (hs_step cred s o) as [s1 x] eqn:E1. destruct (hs_run cred s1 h) as [s2 xs] eqn:E2. cbn.
+  apply hs_step_fixed_fields in E1. specialize (IH s1). rewrite E2 in IH. cbn in IH. rewrite IH. apply E1.
+Qed.
+
+Lemma one_peer_run cs : forall s b,
+  one_peer_ok s b -> one_peer_ok (fst (hs_run true s (map (HApp 0) cs))) (b ++ concat cs).
+Proof.
+  induction cs as [|c cs IH]; intros s b H; cbn [map hs_run concat].
+  - rewrite app_nil_r. exact H.
+  - destruct (hs_step true s (HApp 0 c)) as [s1 x] eqn:E1.
+    destruct (hs_run true s1 (map (HApp 0) cs)) as [s2 xs] eqn:E2. cbn [fst].
+    pose proof (one_peer_app _ _ _ _ _ H E1) as H1. specialize (IH s1 (b ++ c) H1). rewrite E2 in IH. cbn [fst] in IH.
+    rewrite <- app_assoc in IH. exact IH.
+Qed.
+
+(* the theorem: for EVERY way of cutting a byte stream into pieces c0, c1, ..., cn (delivered with a look of the server
+   after each piece), the peer ends up as the classification of the whole stream says *)
+Theorem handshake_outcome_by_stream t c0 cs :
+  let s := fst (hs_run true (hs_init t) (HNew c0 :: map (HApp 0) cs)) in
+  exists p, h_peers s = [p] /\ p_stat p = classify 0 (concat (c0 :: cs)).
+Proof.
+  cbn [hs_run]. destruct (hs_step true (hs_init t) (HNew c0)) as [s1 x1] eqn:E1.
+  destruct (hs_run true s1 (map (HApp 0) cs)) as [s2 xs] eqn:E2. cbn [fst].
+  pose proof (hs_step_fixed_fields _ _ _ _ _ E1) as (_ & F2 & _). cbn in F2.
+  apply one_peer_new in E1. apply (one_peer_run cs) in E1. rewrite E2 in E1. cbn [fst] in E1.
+  pose proof (hs_run_enforced true (map (HApp 0) cs) s1) as F3. rewrite E2 in F3. cbn [fst] in F3.
+  destruct E1 as (p & Hp & _ & _ & _ & Hst & _). exists p. split; [exact Hp|].
+  rewrite Hst. rewrite F3, F2. reflexivity.
+Qed.
+
+(* corollary: two ways of cutting the same stream give the same outcome *)
+Corollary handshake_chunking_irrelevant t c0 cs d0 ds :
+  concat (c0 :: cs) = concat (d0 :: ds) ->
+  map p_stat (h_peers (fst (hs_run true (hs_init t) (HNew c0 :: map (HApp 0) cs)))) =
+  map p_stat (h_peers (fst (hs_run true (hs_init t) (HNew d0 :: map (HApp 0) ds)))).
+Proof.
+  intros H. destruct (handshake_outcome_by_stream t c0 cs) as (p & Hp & Hs).
+  destruct (handshake_outcome_by_stream t d0 ds) as (q & Hq & Ht).
+  rewrite Hp, Hq. cbn [map]. rewrite Hs, Ht, H. reflexivity.
+Qed.
+
+Example classify_examples :
+  classify 0 (firstn 23 ex_valid) = PPending (firstn 23 ex_valid) /\
+  classify 0 (ex_valid ++ [1; 2; 3]%Z) = PConn 8192 /\
+  classify 0 (5%Z :: tl ex_valid) = PClosed.
+Proof. vm_compute. auto. Qed.
+
+(* ---- end of stream without close (the peer shuts down its sending side): the handshake is decided at once ---- *)
+Definition decided (p : peer) : Prop :=
+  p_stat p = PClosed \/ (exists mx, p_stat p = PConn mx) \/ p_stat p = PGone.
+
+Lemma process_auth_eof down cred got k o k' :
+  chunks_ok k -> length got < LEN -> k_eof k = true -> process_auth down cred got k = (o, k') ->
+  k_eof k' = true /\ match o with PaStay _ => False | _ => True end.
+Proof.
+  intros Hc Hl He H. unfold process_auth in H.
+  destruct down; [inversion H; subst; auto|].
+  destruct (k_hup k); [inversion H; subst; auto|].
+  assert (Hp : pollin k = true) by (unfold pollin; destruct (k_chunks k); auto).
+  rewrite Hp in H. cbn [negb] in H.
+  destruct (recv_msghdr (S LEN) got k) as [[r got'] k1] eqn:Er.
+  apply recv_msghdr_spec in Er; [|exact Hc|exact Hl|lia].
+  destruct Er as (A & B & C & D & E & F & G & I1 & I2).
+  assert (He1 : k_eof k1 = true) by congruence.
+  destruct r.
+  - destruct cred; cbn [negb] in H; [|inversion H; subst; auto].
+    destruct (req_id got' =? IPC_MSG_AUTHENTICATE)%Z; inversion H; subst; auto.
+  - destruct (I1 eq_refl) as [_ X]. congruence.
+  - inversion H; subst; auto.
+  - congruence.
+Qed.
+
+Lemma decided_turn t enf down cred p r p' r' c :
+  decided p -> peer_turn t enf down cred p r = (p', r', c) -> decided p'.
+Proof.
+  intros Hd H. unfold peer_turn in H. destruct Hd as [Hd|[[mx Hd]|Hd]]; rewrite Hd in H.
+  - inversion H; subst. left; exact Hd.
+  - destruct (k_hup (p_sock p) || (k_eof (p_sock p) && match k_chunks (p_sock p) with [] => true | _ => false end)).
+    + inversion H; subst. right; right; reflexivity.
+    + destruct t; destruct (k_chunks (p_sock p)); inversion H; subst; right; left; exists mx; reflexivity.
+  - inversion H; subst. right; right; exact Hd.
+Qed.
+
+Lemma decided_turns n t enf down cred : forall p r acc p' r' acc',
+  decided p -> turns n t enf down cred p r acc = (p', r', acc') -> decided p'.
+Proof.
+  induction n as [|n IH]; intros p r acc p' r' acc' Hd H; cbn [turns] in H.
+  - inversion H; subst. exact Hd.
+  - destruct (peer_turn t enf down cred p r) as [[p1 r1] c1] eqn:Et.
+    eapply IH; [|exact H]. eapply decided_turn; eauto.
+Qed.
+
+Lemma turn_eof t enf down cred p r p' r' c :
+  peer_ok enf p -> k_eof (p_sock p) = true -> peer_turn t enf down cred p r = (p', r', c) ->
+  k_eof (p_sock p') = true /\ (p_stat p = PArrived \/ decided p') /\
+  (p_stat p = PArrived -> exists got, p_stat p' = PPending got).
+Proof.
+  intros Hok He H. pose proof (peer_turn_spec _ _ _ _ _ _ _ _ _ Hok H) as (_ & _ & _ & D & _).
+  split; [congruence|]. destruct Hok as [Hc Hs]. pose proof H as H0.
+  unfold peer_turn in H. destruct (p_stat p) as [|got| |mx|] eqn:Es.
+  - inversion H; subst; cbn. split; [left; reflexivity|]. intros _. eexists; reflexivity.
+  - destruct Hs as [Hl _]. destruct (process_auth down cred got (p_sock p)) as [o k1] eqn:Ep.
+    apply process_auth_eof in Ep; [|exact Hc|exact Hl|exact He]. destruct Ep as [_ Ho].
+    destruct o as [g|e|req]; [contradiction| |]; inversion H; subst; cbn.
+    + split; [right; left; reflexivity|intros X; discriminate X].
+    + split; [right; right; left; eexists; reflexivity|intros X; discriminate X].
+  - inversion H; subst. split; [right; left; exact Es|intros X; discriminate X].
+  - split; [right|intros X; discriminate X].
+    eapply decided_turn; [|exact H0]. right; left; exists mx; exact Es.
+  - inversion H; subst. split; [right; right; right; exact Es|intros X; discriminate X].
+Qed.
+
+(* A3': whatever a peer did before, once it has ended its stream no auth record is left waiting: the handshake is
+   decided (closed, or a connection) *)
+Theorem hs_shut_decides cred s k p s' x :
+  Inv_hs s -> nth_error (h_peers s) k = Some p -> hs_step cred s (HShut k) = (s', x) ->
+  exists p', nth_error (h_peers s') k = Some p' /\ decided p' /\ r_auths (weight (h_tr s') (p_stat p')) = 0%Z.
+Proof.
+  intros [_ Hall] Hn H. rewrite hs_step_unfold in H.
+  destruct (prepared s (HShut k)) as [p1|] eqn:Ep; [|cbn [prepared] in Ep; rewrite Hn in Ep; discriminate Ep].
+  destruct (prepared_ok _ _ _ Hall Ep) as [Hp1 _].
+  cbn [prepared] in Ep. rewrite Hn in Ep. inversion Ep as [Ep1]; clear Ep.
+  destruct (turns NTURNS _ _ _ _ _ _ _) as [[p' r'] cc] eqn:Et.
+  inversion H; subst s' x; clear H. cbn [h_peers with_peers target h_tr].
+  exists p'. split; [eapply nth_error_set_nth_same; eauto|].
+  assert (He : k_eof (p_sock p1) = true) by (rewrite <- Ep1; reflexivity).
+  assert (Hd : decided p').
+  { change NTURNS with (S (S 198)) in Et. rewrite turns_S in Et.
+    destruct (peer_turn (h_tr s) (h_enforced s) (h_down s) cred p1 (h_res s)) as [[q1 r1] c1] eqn:E1.
+    pose proof (peer_turn_spec _ _ _ _ _ _ _ _ _ Hp1 E1) as (Hq1 & _).
+    pose proof (turn_eof _ _ _ _ _ _ _ _ _ Hp1 He E1) as (He1 & D1 & A1).
+    rewrite turns_S in Et.
+    destruct (peer_turn (h_tr s) (h_enforced s) (h_down s) cred q1 r1) as [[q2 r2] c2] eqn:E2.
+    pose proof (turn_eof _ _ _ _ _ _ _ _ _ Hq1 He1 E2) as (He2 & D2 & A2).
+    assert (Hd2 : decided q2).
+    { destruct D2 as [Ha|Hd]; [|exact Hd]. destruct D1 as [Ha1|Hd1].
+      - destruct (A1 Ha1) as [got Hg]. congruence.
+      - destruct Hd1 as [X|[[mx X]|X]]; congruence. }
+    eapply decided_turns; [exact Hd2|exact Et]. }
+  split; [exact Hd|]. destruct Hd as [X|[[mx X]|X]]; rewrite X; reflexivity.
 Qed.
